@@ -58,6 +58,9 @@ func (c *muxCase) line(cfg, date string, impl []byte) string {
 	fmt.Fprintf(&b, "c08 mux cfg=%s codec=%s w=%d h=%d fr=%s vdr=%s sps=%s pps=%s vps=%s hv=%s hs=%s aac=%s asr=%d ass=%d ach=%d adr=%s asc=%s date=%s known=%d impl=%s",
 		cfg, c.codec, c.w, c.h, f64hex(c.fr), f64hex(c.vdr), Hx(c.sps), Hx(c.pps), Hx(c.vps), hv, hs,
 		B01(c.aac), c.asr, c.ass, c.ach, f64hex(c.adr), Hx(c.asc), Hx([]byte(date)), c.known, Hx(impl))
+	if cfg == "join" {
+		b.WriteString(" join=1")
+	}
 	for _, f := range c.frames {
 		fmt.Fprintf(&b, " f:%d:%d:%d:%s", f.mt, f.dts, f.pts, Hx(f.payload))
 	}
@@ -122,9 +125,11 @@ type srcTag struct {
 }
 
 type wrCase struct {
-	flags int
-	tags  []srcTag
-	gen   string
+	flags    int
+	tags     []srcTag
+	gen      string
+	replayed int      // join cases: number of tags replayed from the cache
+	mc       *muxCase // join / service cases: the stream and frames the tags come from
 }
 
 func (c *wrCase) line(cfg string, impl []byte) string {
@@ -335,7 +340,8 @@ func genMuxCase(r *Rng, count func(string), thorough bool) *muxCase {
 		count("vps-empty")
 	case x < 14 && thorough:
 		n := 65534 + r.Intn(3)
-		c.sps = append(c.sps[:4:4], r.Bytes(n-4)...)
+		c.sps = append(append([]byte{}, c.sps...), 0, 0, 0, 0)[:4]
+		c.sps = append(c.sps, r.Bytes(n-4)...)
 		count(fmt.Sprintf("sps-len-%d", n))
 	case x < 15 && thorough:
 		n := 65534 + r.Intn(3)
